@@ -183,7 +183,10 @@ Proof.
 Qed.
 
 Lemma logv_st_view a b : view_eq a b -> forall p c q m, logv_st a p c q m = logv_st b p c q m.
-Proof. intros V p c q m. rewrite !logv_events, (log_st_view a b V). reflexivity. Qed.
+Proof.
+  intros V p c q m. rewrite !logv_events, (log_st_view a b V), !eff_pkg_lookup.
+  destruct V as [_ L]. rewrite L. reflexivity.
+Qed.
 
 Lemma lock_legal_view a b : view_eq a b -> forall p, lock_legal a p = lock_legal b p.
 Proof. intros [_ L] p. unfold lock_legal. rewrite !is_reg_lookup, L. reflexivity. Qed.
@@ -194,21 +197,25 @@ Proof.
   rewrite (log_st_view a b V), (logv_st_view a b V). reflexivity.
 Qed.
 
-Lemma log_full_view dbg a b : view_eq a b -> forall p c q m, log_full dbg a p c q m = log_full dbg b p c q m.
+Lemma isreg_query_view dbg a b : view_eq a b -> forall p, isreg_query dbg a p = isreg_query dbg b p.
 Proof.
-  intros V p c q m. unfold log_full, isreg_side.
-  rewrite (log_st_view a b V), (flat_map_ext _ _ (expand_own_view a b V)).
+  intros V p. unfold isreg_query, isreg_side.
+  rewrite (flat_map_ext _ _ (expand_own_view a b V)).
   destruct V as [(_ & _ & _ & _ & _ & _ & G7) _]. rewrite G7. reflexivity.
 Qed.
 
-Lemma logv_full_view a b : view_eq a b -> forall p c q m, logv_full a p c q m = logv_full b p c q m.
-Proof. intros V p c q m. unfold logv_full. rewrite (lock_legal_view a b V), (logv_st_view a b V). reflexivity. Qed.
-
-Lemma expand_checked_view dbg a b : view_eq a b -> forall evs, expand_checked dbg a evs = expand_checked dbg b evs.
+Lemma log_full_view dbg a b : view_eq a b -> forall p c q m, log_full dbg a p c q m = log_full dbg b p c q m.
 Proof.
-  intros V evs. induction evs as [|[[[[[[k h] s] p] c] q] m] r IH]; [reflexivity|].
-  unfold expand_checked in *. cbn [fold_right]. rewrite IH.
-  rewrite (log_full_view dbg a b V), (logv_full_view a b V). reflexivity.
+  intros V p c q m. unfold log_full. rewrite (log_st_view a b V), (isreg_query_view dbg a b V). reflexivity.
+Qed.
+
+Lemma logv_full_view dbg a b : view_eq a b -> forall p c q m, logv_full dbg a p c q m = logv_full dbg b p c q m.
+Proof. intros V p c q m. unfold logv_full. rewrite (logv_st_view a b V), (isreg_query_view dbg a b V). reflexivity. Qed.
+
+Lemma expand_full_view dbg a b : view_eq a b -> forall e, expand_full dbg a e = expand_full dbg b e.
+Proof.
+  intros V [[[[[[k h] s] p] c] q] m]. unfold expand_full.
+  rewrite (log_full_view dbg a b V), (logv_full_view dbg a b V). reflexivity.
 Qed.
 
 (* --- effect of every operation on the view ----------------------------------------------------- *)
@@ -287,10 +294,16 @@ Theorem step_log_keeps_state dbg st o st' evs :
 Proof.
   destruct o; intros T; try contradiction; cbn [step]; intros H.
   - injection H as <- _; reflexivity.
-  - destruct (logv_full st package category priority msg); [injection H as <- _; reflexivity|discriminate].
-  - destruct (expand_checked dbg st _); [injection H as <- _; reflexivity|discriminate].
-  - destruct (expand_checked dbg st _); [injection H as <- _; reflexivity|discriminate].
+  - injection H as <- _; reflexivity.
+  - injection H as <- _; reflexivity.
+  - injection H as <- _; reflexivity.
 Qed.
+
+(* logging never ends the process and never changes the state, whatever the package id *)
+Theorem step_log_total dbg st o :
+  (match o with OLog _ _ _ _ | OLogv _ _ _ _ | OGenLog _ _ _ _ | OGenLogf _ _ _ _ => True | _ => False end) ->
+  exists evs, step dbg st o = Some (st, evs).
+Proof. destruct o; intros T; try contradiction; cbn [step]; eexists; reflexivity. Qed.
 
 Theorem step_finalize dbg st st' evs :
   step dbg st OFinalize = Some (st', evs) ->
@@ -395,12 +408,9 @@ Proof.
   - (* trace *)
     split; [reflexivity|]. repeat split; cbn; assumption.
   - split; [apply log_full_view; exact V|exact V].
-  - rewrite (logv_full_view a b V). destruct (logv_full b package category priority msg); [|exact I].
-    split; [reflexivity|exact V].
-  - rewrite (expand_checked_view dbg a b V). destruct (expand_checked dbg b _); [|exact I].
-    split; [reflexivity|exact V].
-  - rewrite (expand_checked_view dbg a b V). destruct (expand_checked dbg b _); [|exact I].
-    split; [reflexivity|exact V].
+  - split; [apply logv_full_view; exact V|exact V].
+  - split; [apply flat_map_ext; apply expand_full_view; exact V|exact V].
+  - split; [apply flat_map_ext; apply expand_full_view; exact V|exact V].
 Qed.
 
 Theorem run_view dbg ops : forall a b, view_eq a b ->
@@ -431,9 +441,9 @@ Proof.
   - injection H as <- _. exact N.
   - injection H as <- _. exact N.
   - injection H as <- _. exact N.
-  - destruct (logv_full _ _ _ _ _); [|discriminate]. injection H as <- _. exact N.
-  - destruct (expand_checked _ _ _); [|discriminate]. injection H as <- _. exact N.
-  - destruct (expand_checked _ _ _); [|discriminate]. injection H as <- _. exact N.
+  - injection H as <- _. exact N.
+  - injection H as <- _. exact N.
+  - injection H as <- _. exact N.
 Qed.
 
 Lemma run_dhandler dbg ops : forall st st' evs, run dbg st ops = Some (st', evs) -> s_dhandler st <> 0 -> s_dhandler st' <> 0.
